@@ -429,6 +429,12 @@ let verdict case impl =
             [{ why = "after " ^ string_of_int rep ^ " accepted values the count is " ^ cnt; known = false }]
           else []
         | _ -> []) in
+    (* the repeated first operation is judged by the property predicates like every other one
+       (its result is that of the last of the [rep] adds) *)
+    let first = first @ (match String.split_on_char '/' tok1 with
+        | r1 :: _ when rep >= 1 && r1 <> "err:TooManyValues" ->
+          (match op_finding k1 t1 v1 r1 with Some f -> [f] | None -> [])
+        | _ -> []) in
     let start = (match String.split_on_char '/' tok1 with [_; c; i; l; b] -> Some (c, i, l, b) | _ -> None) in
     let per_op = if List.length toks = List.length ops then
         List.concat (List.map2 (fun (k, t, v) tok ->
